@@ -189,7 +189,16 @@ func checkC06(c *Ctx) {
 	}
 	if arg != nil {
 		ok, why := inductionPlusOne(arg)
-		if ok {
+		if !ok {
+			// the counter kept in a variable cell (a deferred closure reads it): `for id = 1; ; id++` or `id := 0; for { id++ ... }`
+			if ok2, why2 := readLoopCellCounter(arg, m); ok2 {
+				ok, why = true, why2
+				arg = nil
+			} else if why2 != "" {
+				why = why2
+			}
+		}
+		if ok && arg != nil {
 			switch x := arg.(type) {
 			case *ssa.BinOp:
 				if loopHeadOf(x) != m.loopHead && x.Block() != m.loopHead {
@@ -399,6 +408,13 @@ func checkC06(c *Ctx) {
 		R.Check(ci == m.serveCall, "C06-conn-async", fname(ci.Parent())+": serveRequests", c.pos(ci), "called only inside the per-connection goroutine started by go in Run", "serveRequests is called outside the per-connection goroutine: the accept loop would serve connections one at a time")
 	}
 	R.Check(m.connGo != nil && loopHeadOf(m.connGo) == loopHeadOf(m.accept), "C06-conn-async", "(*Server).Run: go per connection in accept loop", c.pos(m.connGo), "every accepted connection gets its own goroutine", "the per-connection go is not in the accept loop")
+	// ---- C06-dispatched: "each request other than StartTLS and Unbind is handed to its handler without waiting for
+	// earlier handlers": on every path from a request read to the next read exactly one dispatch runs - the go statement of
+	// the per-request goroutine or the inline serve of Unbind / StartTLS (rule C03-dispatch). A request parked in a
+	// queue or handed to a shared worker on some path is not dispatched by the read loop at all on that path
+	if c.importRules(checkC03, func(o report.Obligation) bool { return o.Rule == "C03-dispatch" }, "C06-dispatched", " - on some path the request is not started on a goroutine of its own when it is read") > 0 {
+		R.Floor("C06-dispatched", 2)
+	}
 	// ---- C06-nolock-io: "a handler that blocks delays ... nothing on other connections": a handler blocked in a write to
 	// a client that does not read holds no lock the read loops or writers of other connections need (rule C07-nolock-io)
 	if c.importRules(checkC07, func(o report.Obligation) bool { return o.Rule == "C07-nolock-io" }, "C06-nolock-io", " - the read loop of this and of every other connection that needs the lock stops dispatching") > 0 {
@@ -434,6 +450,72 @@ func callReaches(ci ssa.CallInstruction, pred func(*ssa.CallCommon) bool, seen m
 		}
 	}
 	return false
+}
+
+// readLoopCellCounter: the request number is a load of a local variable of
+// serveRequests that is assigned a constant before the read loop and
+// otherwise only by one `x = x + 1` inside it, executed exactly once per
+// iteration, with the first number read being 1: start 0 and the increment
+// before the read, or start 1 and the increment after it (closures only read).
+func readLoopCellCounter(v ssa.Value, m *serverModel) (bool, string) {
+	ld, ok := v.(*ssa.UnOp)
+	if !ok || ld.Op != token.MUL {
+		return false, ""
+	}
+	al, ok := ld.X.(*ssa.Alloc)
+	if !ok || al.Parent() != m.serve {
+		return false, ""
+	}
+	stores, esc := an.CellStores(al)
+	if esc {
+		return false, "the counter variable escapes"
+	}
+	var inc, init *ssa.Store
+	for _, st := range stores {
+		if st.Parent() != m.serve {
+			return false, "the counter is assigned from a closure"
+		}
+		if _, isK := an.IntConst(st.Val); isK && loopHeadOf(st) != m.loopHead && st.Block() != m.loopHead {
+			if init != nil {
+				return false, "the counter is initialised twice"
+			}
+			init = st
+			continue
+		}
+		bo, isB := st.Val.(*ssa.BinOp)
+		if !isB || bo.Op != token.ADD || inc != nil {
+			return false, "the counter has another assignment"
+		}
+		k, isK := an.IntConst(bo.Y)
+		l2, isL := bo.X.(*ssa.UnOp)
+		if !isK || k != 1 || !isL || l2.Op != token.MUL || l2.X != ssa.Value(al) {
+			return false, "the counter's assignment is not counter+1"
+		}
+		inc = st
+	}
+	if inc == nil {
+		return false, "the counter is never incremented"
+	}
+	if loopHeadOf(inc) != m.loopHead && inc.Block() != m.loopHead {
+		return false, "the increment is not in the read loop"
+	}
+	start := int64(0) // a zero-valued variable without explicit initialisation
+	if init != nil {
+		start, _ = an.IntConst(init.Val)
+	}
+	// once per iteration
+	if an.Search(an.After(inc), isInstr(inc), inBlock(m.loopHead)) != nil {
+		return false, "the increment can run more than once per iteration"
+	}
+	pre := an.InstrDominates(inc, m.readReq) && an.Search(an.After(inc), isInstr(m.readReq), inBlock(m.loopHead)) != nil
+	post := an.Search(an.After(m.readReq), inBlock(m.loopHead), isInstr(inc)) == nil // every way back to the loop head passes the increment
+	switch {
+	case start == 0 && pre:
+		return true, "variable starting at 0, incremented once per iteration before the read: 1, 2, 3, ..."
+	case start == 1 && post && !an.InstrDominates(inc, m.readReq):
+		return true, "variable starting at 1, incremented once at the end of every iteration (for id = 1; ; id++): 1, 2, 3, ..."
+	}
+	return false, sprintf("the numbering does not start at 1 or the increment is not executed once per iteration around the read (start %d)", start)
 }
 
 func isThisIterationWriter(v ssa.Value, m *serverModel) bool {
